@@ -13,6 +13,7 @@ mod crash;
 mod c14;
 mod c15;
 mod c16;
+mod c17;
 mod c18;
 mod c19;
 
@@ -41,6 +42,7 @@ fn main() {
         "c14" => c14::run(&args),
         "c15" => c15::run(&args),
         "c16" => c16::run(&args),
+        "c17" => c17::run(&args),
         "c18" => c18::run(&args),
         "c19" => c19::run(&args),
         "c14ref" => c14::run_ref(&args),
